@@ -717,7 +717,7 @@ def oracle(ctx, deep):
     mult = 4 if deep else 1
     with hp.precision():
         # every stage runs even if the code under test raised in an earlier one
-        for stage in (lambda c, m: _oracle(c, deep), _oracle_unit_norm, _oracle_general_rotation, _oracle_0d_beams, _oracle_pipeline,
+        for stage in (lambda c, m: _oracle(c, deep), _oracle_unit_norm, _oracle_general_rotation, _oracle_0d_beams, _oracle_beam_dims, _oracle_pipeline,
                       _oracle_accessors_repeatable, _oracle_configuration):
             try:
                 stage(ctx, mult)
@@ -967,6 +967,82 @@ def _oracle_0d_beams(ctx, mult):
                 ctx.violation('C03:two-theta-scale', f'two_theta ({mode}) changes from {tt[k]!r} to {tts[k]!r} when the incident beam is '
                               f'rescaled by {sc_} (Euclidean angle {hp.fmt(truth)} → {hp.fmt(truth_s)})',
                               {**w, 'scale_b1': sc_, 'sb1': [hp.bits(x) for x in sb1]})
+
+
+DIM_LAYOUTS = [
+    # (dims of the incident beams, dims of the scattered beams): every combination in which each beam has a dim the other
+    # lacks, or one has strictly more; the result must carry the union of the dims and hold the angle of each pair
+    (('run',), ('pixel',)), (('run',), ('bank', 'pixel')), (('bank', 'pixel'), ('run',)), (('run', 'pixel'), ('pixel',)),
+    (('pixel',), ('run', 'pixel')), (('run', 'pixel'), ('pixel', 'run')), (('run',), ('run', 'pixel')), (('run', 'bank'), ('bank', 'pixel')),
+]
+DIM_SIZES = {'run': 2, 'bank': 2, 'pixel': 3}
+
+
+def impl_two_theta_dims(b1, dims1, b2, dims2, u1='m', u2='m'):
+    """b1 / b2: nested lists of 3-vectors laid out along dims1 / dims2; returns (dims, ndarray) of the real result"""
+    import scipp as sc
+    from scippneutron.conversion import beamline as bl
+
+    v1 = sc.vectors(dims=list(dims1), values=np.asarray(b1, dtype=np.float64), unit=u1)
+    v2 = sc.vectors(dims=list(dims2), values=np.asarray(b2, dtype=np.float64), unit=u2)
+    s1, s2 = v1.values.tobytes(), v2.values.tobytes()
+    r = bl.two_theta(incident_beam=v1, scattered_beam=v2)
+    if v1.values.tobytes() != s1 or v2.values.tobytes() != s2:
+        raise AssertionError('input modified')
+    return tuple(r.dims), np.array(r.values, dtype=np.float64)
+
+
+def _dims_case_violation(b1, dims1, b2, dims2, u1, u2):
+    """None if two_theta of the two laid-out beam arrays is, pair by pair, the Euclidean angle; else (key, text)"""
+    try:
+        dims, val = impl_two_theta_dims(b1, dims1, b2, dims2, u1, u2)
+    except AssertionError:
+        return 'C03:input-modified:two_theta', f'two_theta modified a beam it was given (dims {dims1} / {dims2})'
+    except Exception as e:  # noqa: BLE001
+        return ('C03:two-theta-raises:incident-dims-not-in-scattered',
+                f'two_theta(incident_beam=<dims {dims1}>, scattered_beam=<dims {dims2}>) raised {type(e).__name__} ({str(e)[:80]}) on beams '
+                'that broadcast against each other; every such pair of beams has an angle')
+    want = set(dims1) | set(dims2)
+    if set(dims) != want:
+        return 'C03:two-theta-dims', f'two_theta of beams with dims {dims1} / {dims2} has dims {dims}, not the union {sorted(want)}'
+    a1, a2 = np.asarray(b1, dtype=np.float64), np.asarray(b2, dtype=np.float64)
+    import itertools
+    for idx in itertools.product(*[range(DIM_SIZES[d]) for d in dims]):
+        at = dict(zip(dims, idx))
+        p1 = a1[tuple(at[d] for d in dims1)]
+        p2 = a2[tuple(at[d] for d in dims2)]
+        truth = _true_angle([float(x) for x in p1], [float(x) for x in p2])
+        got = float(val[idx])
+        if not abs(hp.D(got) - truth) <= hp.D(ACC):
+            return ('C03:two-theta-accuracy', f'two_theta at {at} of beams with dims {dims1} / {dims2} = {got!r} but the Euclidean angle of '
+                    f'that pair is {hp.fmt(truth)}')
+    return None
+
+
+def _oracle_beam_dims(ctx, mult):
+    """Beams whose dims differ in every way broadcasting allows (per-run incident beam with per-pixel scattered beam, banks,
+    transposed layouts): the angle of every pair, on the union of the dims."""
+    rng = ctx.rng
+    for _ in range(ctx.n(120, 3000) * mult):
+        dims1, dims2 = rng.choice(DIM_LAYOUTS)
+        u1, u2 = rng.choice(BIG_UNITS), rng.choice(BIG_UNITS)
+
+        def fill(dims):
+            shape = [DIM_SIZES[d] for d in dims]
+            flat = []
+            for _ in range(int(np.prod(shape))):
+                v = _vec(rng) if rng.random() < 0.7 else near_axis_vec(rng)
+                while _norm(v) == 0.0:
+                    v = _vec(rng)
+                flat.append(v)
+            return np.asarray(flat, dtype=np.float64).reshape(*shape, 3).tolist()
+        b1, b2 = fill(dims1), fill(dims2)
+        ctx.case(('beam-dims', dims1, dims2, hp.bits(b1[0][0] if len(dims1) == 1 else b1[0][0][0])), True)
+        ctx.count('oracle:beam-dims:' + ','.join(dims1) + '|' + ','.join(dims2))
+        bad = _dims_case_violation(b1, dims1, b2, dims2, u1, u2)
+        if bad is not None:
+            ctx.violation(bad[0], bad[1], {'kind': 'beam-dims', 'b1_values': b1, 'b2_values': b2, 'dims1': list(dims1), 'dims2': list(dims2),
+                                           'units': [u1, u2]})
 
 
 # ---- accessors of beamline_components: repeatable, no input modification, precomputed coordinates honoured ----
@@ -1545,6 +1621,11 @@ def _replay(ctx, payload):
                     print(f'pixel {i}: two_theta = {float(tt[i])!r}, rescaled {float(tts[i])!r}; Euclidean angle {hp.fmt(truth)}')
                     bad = True
             return bad
+    if w.get('kind') == 'beam-dims':
+        with hp.precision():
+            bad = _dims_case_violation(w['b1_values'], tuple(w['dims1']), w['b2_values'], tuple(w['dims2']), *w['units'])
+        print(bad)
+        return bad is not None
     if w.get('kind') == 'raises':
         b1 = [hp.unbits(h) for h in w['b1']]
         b2 = [hp.unbits(h) for h in w['b2']]
